@@ -101,13 +101,18 @@ def note_run(case, obs, sh):
     return True
 
 
-def campaign(tag, spec, sh, judge, classes, pool_first=0, **gen_kw):
+def campaign(tag, spec, sh, judge, classes, pool_first=0, long_share=0.15, **gen_kw):
     """Generic e2e shard: cases 0..n-1 of (seed, shard), each judged by judge(case, workdir, sh)."""
     from vf import gen
     from vf.core import rng_for
     for i in range(spec['cases']):
         rng = rng_for(tag, spec['seed'], spec['shard'], i)
-        case = gen.pipeline_case(rng, classes, **gen_kw)
+        if rng.random() < long_share:
+            case = gen.long_molecule_case(rng, nq=rng.randint(6, 12))
+            if rng.random() < 0.4:
+                case['params'].update(d=rng.choice([800, 3000]), ms=rng.choice([500, 1000, 2000]))
+        else:
+            case = gen.pipeline_case(rng, classes, **gen_kw)
         case['kind'] = 'e2e'
         case['gen'] = [spec['seed'], spec['shard'], i]
         judge(case, spec['workdir'], sh)
